@@ -1,8 +1,1104 @@
-//! Engine B (stub)
+//! Engine B: bounded-exhaustive call sequences on live handles (no re-open unless it is a letter).
+//!
+//! A job names a prefix; the worker enumerates every completion of the prefix up to the depth,
+//! runs each sequence from a fresh directory inside one process with all handles alive, checks
+//! every call against the per-map BTreeMap model, and checks the files at the end.
 #![allow(dead_code)]
-use crate::pool::WorkerIo;
+
+use crate::decoder;
+use crate::pool::{JobResult, Pool, WorkerIo};
 use crate::props_a::Ctx;
-pub fn worker_job(_k: u8, _payload: &[u8], _io: &mut WorkerIo) -> Vec<u8> { vec![] }
-pub fn c01_live(_ctx: &mut Ctx) {}
-pub fn c02_live(_ctx: &mut Ctx) {}
-pub fn c18_live(_ctx: &mut Ctx) {}
+use crate::report::{Replay, Violation};
+use crate::subject::*;
+use crate::util::{show, Buf, Rd, J};
+use abyssiniandb::filedb::{FileDb, FileDbMap};
+use abyssiniandb::{DbMap, DbMapKeyType, DbXxx, DbXxxBase};
+use std::collections::BTreeMap;
+use std::io;
+use std::path::{Path, PathBuf};
+
+pub const JOB_B_CONFIG: u8 = 20;
+pub const JOB_B_RUN: u8 = 21;
+
+// ---------------------------------------------------------------------------------------------
+// type-erased map handle
+
+pub trait DynMap {
+    fn put(&mut self, k: &[u8], v: &[u8]) -> io::Result<()>;
+    fn get(&mut self, k: &[u8]) -> io::Result<Option<Vec<u8>>>;
+    fn del(&mut self, k: &[u8]) -> io::Result<Option<Vec<u8>>>;
+    fn has(&mut self, k: &[u8]) -> io::Result<bool>;
+    fn len(&self) -> io::Result<u64>;
+    fn is_empty(&self) -> io::Result<bool>;
+    fn flush(&mut self) -> io::Result<()>;
+    fn sync_all(&mut self) -> io::Result<()>;
+    fn sync_data(&mut self) -> io::Result<()>;
+    fn read_fill_buffer(&mut self) -> io::Result<()>;
+    fn clone_box(&self) -> Box<dyn DynMap>;
+    fn items(&mut self) -> Vec<(Vec<u8>, Vec<u8>)>;
+    fn partial_iter(&mut self, steps: usize) -> Box<dyn std::any::Any>;
+}
+
+impl<T: Kt> DynMap for FileDbMap<T> {
+    fn put(&mut self, k: &[u8], v: &[u8]) -> io::Result<()> {
+        DbXxx::put(self, k, v)
+    }
+    fn get(&mut self, k: &[u8]) -> io::Result<Option<Vec<u8>>> {
+        DbXxx::get(self, k)
+    }
+    fn del(&mut self, k: &[u8]) -> io::Result<Option<Vec<u8>>> {
+        DbXxx::delete(self, k)
+    }
+    fn has(&mut self, k: &[u8]) -> io::Result<bool> {
+        DbXxx::includes_key(self, k)
+    }
+    fn len(&self) -> io::Result<u64> {
+        DbXxxBase::len(self)
+    }
+    fn is_empty(&self) -> io::Result<bool> {
+        DbXxxBase::is_empty(self)
+    }
+    fn flush(&mut self) -> io::Result<()> {
+        DbXxxBase::flush(self)
+    }
+    fn sync_all(&mut self) -> io::Result<()> {
+        DbXxxBase::sync_all(self)
+    }
+    fn sync_data(&mut self) -> io::Result<()> {
+        DbXxxBase::sync_data(self)
+    }
+    fn read_fill_buffer(&mut self) -> io::Result<()> {
+        DbXxxBase::read_fill_buffer(self)
+    }
+    fn clone_box(&self) -> Box<dyn DynMap> {
+        Box::new(self.clone())
+    }
+    fn items(&mut self) -> Vec<(Vec<u8>, Vec<u8>)> {
+        self.iter().map(|(k, v)| (k.as_bytes().to_vec(), v)).collect()
+    }
+    fn partial_iter(&mut self, steps: usize) -> Box<dyn std::any::Any> {
+        let mut it = self.iter();
+        for _ in 0..steps {
+            let _ = it.next();
+        }
+        Box::new(it)
+    }
+}
+
+pub fn acquire(db: &FileDb, kt: KtId, name: &str, params: Option<&Params>) -> io::Result<Box<dyn DynMap>> {
+    crate::with_kt!(kt, T => {
+        let m: FileDbMap<T> = match params {
+            Some(p) => T::open(db, name, p.real())?,
+            None => T::open_default(db, name)?,
+        };
+        Ok(Box::new(m) as Box<dyn DynMap>)
+    })
+}
+
+// ---------------------------------------------------------------------------------------------
+// configuration and letters
+
+#[derive(Clone, Debug)]
+pub struct BMap {
+    pub name: String,
+    pub kt: KtId,
+    pub params: Params,
+    pub keys: Vec<Vec<u8>>,
+}
+
+#[derive(Clone, Copy, Debug, PartialEq, Eq)]
+pub struct Letter {
+    pub kind: u8,
+    pub map: u8,
+    pub handle: u8,
+    pub key: u8,
+    pub val: u8,
+}
+
+pub const L_PUT: u8 = 0;
+pub const L_DEL: u8 = 1;
+pub const L_GET: u8 = 2;
+pub const L_HAS: u8 = 3;
+pub const L_LEN: u8 = 4;
+pub const L_FLUSH: u8 = 5;
+pub const L_SYNC_ALL: u8 = 6;
+pub const L_SYNC_DATA: u8 = 7;
+pub const L_DB_SYNC_ALL: u8 = 8;
+pub const L_DB_SYNC_DATA: u8 = 9;
+pub const L_REOPEN: u8 = 10;
+pub const L_DROP_MAPS: u8 = 11;
+pub const L_DROP_DB: u8 = 12;
+pub const L_KEEP_ITER: u8 = 13;
+pub const L_ISEMPTY: u8 = 14;
+pub const L_FILL: u8 = 15;
+
+pub const H_FIRST: u8 = 0;
+pub const H_CLONE: u8 = 1;
+pub const H_LOOKUP: u8 = 2;
+pub const H_DBCLONE: u8 = 3;
+pub const H_PARAMS: u8 = 4;
+pub const HANDLE_NAMES: [&str; 5] = ["first handle", "clone of the handle", "repeated lookup", "lookup through db.clone()", "lookup *_with_params(other)"];
+
+pub const F_OBSERVE_ALL: u32 = 1; // after every call every handle of every map answers per its model
+pub const F_DECODE_END: u32 = 2; // at the end: drop, decode every map's files, contents = model
+pub const F_RETURN_IMAGES: u32 = 4; // return the final images (C18, C11 projection)
+pub const F_REOPEN_END: u32 = 8; // at the end: re-open with every parameter set of `reopen`, compare
+pub const F_SNAPSHOT_AT_SYNC: u32 = 16; // C03: at every Ok durability call copy the directory and open the copy
+pub const F_SYNC_LOG: u32 = 32; // C03: at sync_* the shim log must show fsync/fdatasync after the last write of each file
+pub const F_SPLICE_RO: u32 = 64; // C18: read-only calls after every update
+pub const F_ALLOW_ERR_NOT_WRONG: u32 = 128;
+
+#[derive(Clone, Debug)]
+pub struct BCfg {
+    pub prop: String,
+    pub maps: Vec<BMap>,
+    pub val_lens: Vec<u32>,
+    pub letters: Vec<Letter>,
+    pub depth: u8,
+    pub flags: u32,
+    pub seed: u64,
+    pub reopen: Vec<Params>,
+    pub other_params: Params,
+}
+
+impl BCfg {
+    pub fn enc(&self) -> Vec<u8> {
+        let mut b = Buf::new();
+        b.str(&self.prop).u32(self.maps.len() as u32);
+        for m in &self.maps {
+            b.str(&m.name).u8(m.kt as u8);
+            m.params.enc(&mut b);
+            b.u32(m.keys.len() as u32);
+            for k in &m.keys {
+                b.bytes(k);
+            }
+        }
+        b.u32(self.val_lens.len() as u32);
+        for v in &self.val_lens {
+            b.u32(*v);
+        }
+        b.u32(self.letters.len() as u32);
+        for l in &self.letters {
+            b.u8(l.kind).u8(l.map).u8(l.handle).u8(l.key).u8(l.val);
+        }
+        b.u8(self.depth).u32(self.flags).u64(self.seed).u32(self.reopen.len() as u32);
+        for p in &self.reopen {
+            p.enc(&mut b);
+        }
+        self.other_params.enc(&mut b);
+        b.0
+    }
+    pub fn dec(bytes: &[u8]) -> BCfg {
+        let mut r = Rd::new(bytes);
+        let prop = r.string();
+        let nm = r.u32();
+        let mut maps = Vec::new();
+        for _ in 0..nm {
+            let name = r.string();
+            let kt = KtId::from_u8(r.u8());
+            let params = Params::dec(&mut r);
+            let nk = r.u32();
+            let keys = (0..nk).map(|_| r.vec()).collect();
+            maps.push(BMap { name, kt, params, keys });
+        }
+        let nv = r.u32();
+        let val_lens = (0..nv).map(|_| r.u32()).collect();
+        let nl = r.u32();
+        let letters = (0..nl).map(|_| Letter { kind: r.u8(), map: r.u8(), handle: r.u8(), key: r.u8(), val: r.u8() }).collect();
+        let depth = r.u8();
+        let flags = r.u32();
+        let seed = r.u64();
+        let nr = r.u32();
+        let reopen = (0..nr).map(|_| Params::dec(&mut r)).collect();
+        let other_params = Params::dec(&mut r);
+        BCfg { prop, maps, val_lens, letters, depth, flags, seed, reopen, other_params }
+    }
+    pub fn value(&self, map: u8, key: u8, val: u8) -> Vec<u8> {
+        crate::engine_a::value_bytes(self.seed ^ ((map as u64) << 20), key as u64, val as u64, self.val_lens[val as usize] as usize)
+    }
+    pub fn label(&self, l: &Letter) -> String {
+        let m = &self.maps[l.map as usize % self.maps.len()];
+        let via = |h: u8| format!("[map {} via {}]", m.name, HANDLE_NAMES[h as usize % 5]);
+        let k = || m.keys.get(l.key as usize).map(|k| show(k)).unwrap_or_default();
+        match l.kind {
+            L_PUT => format!("put({}, {} bytes) {}", k(), self.val_lens[l.val as usize], via(l.handle)),
+            L_DEL => format!("delete({}) {}", k(), via(l.handle)),
+            L_GET => format!("get({}) {}", k(), via(l.handle)),
+            L_HAS => format!("includes_key({}) {}", k(), via(l.handle)),
+            L_LEN => format!("len() {}", via(l.handle)),
+            L_ISEMPTY => format!("is_empty() {}", via(l.handle)),
+            L_FLUSH => format!("flush() {}", via(l.handle)),
+            L_SYNC_ALL => format!("sync_all() {}", via(l.handle)),
+            L_SYNC_DATA => format!("sync_data() {}", via(l.handle)),
+            L_DB_SYNC_ALL => "db.sync_all()".into(),
+            L_DB_SYNC_DATA => "db.sync_data()".into(),
+            L_REOPEN => format!("drop every handle, re-open (parameter set #{})", l.key),
+            L_DROP_MAPS => format!("drop the handles of map {} (database handle stays)", m.name),
+            L_DROP_DB => "drop the database handle (map handles stay)".into(),
+            L_KEEP_ITER => format!("start an iterator on map {}, take one item, keep it alive", m.name),
+            L_FILL => format!("read_fill_buffer() {}", via(l.handle)),
+            _ => format!("letter {:?}", l),
+        }
+    }
+    pub fn is_durability(l: &Letter) -> bool {
+        matches!(l.kind, L_FLUSH | L_SYNC_ALL | L_SYNC_DATA | L_DB_SYNC_ALL | L_DB_SYNC_DATA)
+    }
+    pub fn is_update(l: &Letter) -> bool {
+        matches!(l.kind, L_PUT | L_DEL)
+    }
+}
+
+// ---------------------------------------------------------------------------------------------
+// execution state of one sequence
+
+pub struct MapHandles {
+    pub h: Vec<Option<Box<dyn DynMap>>>, // by handle kind
+}
+
+pub struct BState {
+    pub dir: PathBuf,
+    pub db: Option<FileDb>,
+    pub db_clone: Option<FileDb>,
+    pub maps: Vec<MapHandles>,
+    pub models: Vec<BTreeMap<Vec<u8>, Vec<u8>>>,
+    pub kept: Vec<Box<dyn std::any::Any>>,
+    pub opened_once: Vec<bool>,
+    pub param_override: Option<usize>,
+    pub updates_since_reopen: u64,
+}
+
+pub type Hook<'a> = &'a mut dyn FnMut(&BCfg, &mut BState, usize, &Letter, bool) -> Option<String>;
+
+impl BState {
+    pub fn new(cfg: &BCfg, dir: &Path) -> BState {
+        BState {
+            dir: dir.to_path_buf(),
+            db: None,
+            db_clone: None,
+            maps: (0..cfg.maps.len()).map(|_| MapHandles { h: (0..5).map(|_| None).collect() }).collect(),
+            models: vec![BTreeMap::new(); cfg.maps.len()],
+            kept: Vec::new(),
+            opened_once: vec![false; cfg.maps.len()],
+            param_override: None,
+            updates_since_reopen: 0,
+        }
+    }
+    pub fn drop_all(&mut self) -> Option<String> {
+        let kept = std::mem::take(&mut self.kept);
+        let maps: Vec<MapHandles> = self.maps.iter_mut().map(|m| MapHandles { h: std::mem::replace(&mut m.h, (0..5).map(|_| None).collect()) }).collect();
+        let db = self.db.take();
+        let dbc = self.db_clone.take();
+        match guard_plain(move || {
+            drop(kept);
+            drop(maps);
+            drop(dbc);
+            drop(db);
+        }) {
+            Out::Panic(p) => Some(format!("dropping the handles panicked: {p}")),
+            _ => None,
+        }
+    }
+    fn ensure_db(&mut self) -> Result<(), String> {
+        if self.db.is_none() {
+            let dir = self.dir.clone();
+            match guard(move || abyssiniandb::open_file(&dir)) {
+                Out::Ok(db) => self.db = Some(db),
+                o => return Err(format!("open_file {}", o.failed().unwrap_or_default())),
+            }
+        }
+        Ok(())
+    }
+    /// the handle of kind `h` on map `mi`, acquired on first use and kept alive
+    pub fn handle(&mut self, cfg: &BCfg, mi: usize, h: u8) -> Result<&mut Box<dyn DynMap>, String> {
+        let h = (h % 5) as usize;
+        if self.maps[mi].h[h].is_some() {
+            return Ok(self.maps[mi].h[h].as_mut().unwrap());
+        }
+        // a database handle is needed for every acquisition except a clone of an existing handle
+        if self.db.is_none() && !(h == H_CLONE as usize && self.maps[mi].h[0].is_some()) {
+            self.ensure_db()?;
+        }
+        let m = &cfg.maps[mi];
+        let primary = match self.param_override {
+            Some(pi) => cfg.reopen[pi % cfg.reopen.len().max(1)],
+            None => m.params,
+        };
+        // the first handle always exists before any other kind (it creates the map with its parameters)
+        if self.maps[mi].h[0].is_none() {
+            let db = self.db.as_ref().unwrap().clone();
+            let name = m.name.clone();
+            let kt = m.kt;
+            match guard(move || acquire(&db, kt, &name, Some(&primary))) {
+                Out::Ok(x) => self.maps[mi].h[0] = Some(x),
+                o => return Err(format!("opening map {} {}", m.name, o.failed().unwrap_or_default())),
+            }
+            self.opened_once[mi] = true;
+        }
+        if h != 0 {
+            let name = m.name.clone();
+            let kt = m.kt;
+            let other = cfg.other_params;
+            let got: Out<Box<dyn DynMap>> = match h as u8 {
+                H_CLONE => {
+                    let first = self.maps[mi].h[0].as_ref().unwrap();
+                    guard_plain(|| first.clone_box())
+                }
+                H_LOOKUP => {
+                    self.ensure_db()?;
+                    let db = self.db.as_ref().unwrap().clone();
+                    guard(move || acquire(&db, kt, &name, None))
+                }
+                H_DBCLONE => {
+                    self.ensure_db()?;
+                    if self.db_clone.is_none() {
+                        self.db_clone = Some(self.db.as_ref().unwrap().clone());
+                    }
+                    let db = self.db_clone.as_ref().unwrap().clone();
+                    guard(move || acquire(&db, kt, &name, None))
+                }
+                _ => {
+                    self.ensure_db()?;
+                    let db = self.db.as_ref().unwrap().clone();
+                    guard(move || acquire(&db, kt, &name, Some(&other)))
+                }
+            };
+            match got {
+                Out::Ok(x) => self.maps[mi].h[h] = Some(x),
+                o => return Err(format!("acquiring {} of map {} {}", HANDLE_NAMES[h], m.name, o.failed().unwrap_or_default())),
+            }
+        }
+        Ok(self.maps[mi].h[h].as_mut().unwrap())
+    }
+
+    /// execute one letter; returns a complaint if the call disagrees with the model
+    pub fn exec(&mut self, cfg: &BCfg, l: &Letter) -> Option<String> {
+        let mi = l.map as usize % cfg.maps.len();
+        match l.kind {
+            L_REOPEN => {
+                if let Some(e) = self.drop_all() {
+                    return Some(e);
+                }
+                self.param_override = Some(l.key as usize);
+                self.updates_since_reopen = 0;
+                // re-open every map that exists so far, compare everything
+                for i in 0..cfg.maps.len() {
+                    if self.opened_once[i] {
+                        if let Err(e) = self.handle(cfg, i, 0) {
+                            return Some(format!("after close, re-open with parameter set #{}: {e}", l.key));
+                        }
+                        if let Some(e) = self.observe_map(cfg, i, 0, true) {
+                            return Some(format!("after close and re-open with parameter set #{}: {e}", l.key));
+                        }
+                    }
+                }
+                return None;
+            }
+            L_DROP_MAPS => {
+                let hs = std::mem::replace(&mut self.maps[mi].h, (0..5).map(|_| None).collect());
+                let _ = guard_plain(move || drop(hs));
+                return None;
+            }
+            L_DROP_DB => {
+                let db = self.db.take();
+                let dbc = self.db_clone.take();
+                let _ = guard_plain(move || {
+                    drop(dbc);
+                    drop(db);
+                });
+                return None;
+            }
+            L_DB_SYNC_ALL | L_DB_SYNC_DATA => {
+                if let Err(e) = self.ensure_db() {
+                    return Some(e);
+                }
+                let db = self.db.as_ref().unwrap();
+                let r = if l.kind == L_DB_SYNC_ALL { guard(|| db.sync_all()) } else { guard(|| db.sync_data()) };
+                return r.failed().map(|f| format!("{} {f}", cfg.label(l)));
+            }
+            _ => {}
+        }
+        let key: Vec<u8> = cfg.maps[mi].keys.get(l.key as usize).cloned().unwrap_or_default();
+        let val = if l.kind == L_PUT { cfg.value(l.map, l.key, l.val) } else { Vec::new() };
+        let expect = self.models[mi].get(&key).cloned();
+        let n = self.models[mi].len() as u64;
+        let h = match self.handle(cfg, mi, l.handle) {
+            Ok(h) => h,
+            Err(e) => return Some(e),
+        };
+        let bad = |what: String| Some(what);
+        match l.kind {
+            L_PUT => {
+                let r = guard(|| h.put(&key, &val));
+                if r != Out::Ok(()) {
+                    return bad(format!("{} {}", cfg.label(l), r.failed().unwrap_or_default()));
+                }
+                self.models[mi].insert(key, val);
+                self.updates_since_reopen += 1;
+            }
+            L_DEL => {
+                let r = guard(|| h.del(&key));
+                if r != Out::Ok(expect.clone()) {
+                    return bad(format!("{} gives {} but the model says {}", cfg.label(l), fmt_out(&r), fmt_opt(&expect)));
+                }
+                self.models[mi].remove(&key);
+                self.updates_since_reopen += 1;
+            }
+            L_GET => {
+                let r = guard(|| h.get(&key));
+                if r != Out::Ok(expect.clone()) {
+                    return bad(format!("{} gives {} but the model says {}", cfg.label(l), fmt_out(&r), fmt_opt(&expect)));
+                }
+            }
+            L_HAS => {
+                let r = guard(|| h.has(&key));
+                if r != Out::Ok(expect.is_some()) {
+                    return bad(format!("{} gives {:?} but the model says {}", cfg.label(l), r, expect.is_some()));
+                }
+            }
+            L_LEN => {
+                let r = guard(|| h.len());
+                if r != Out::Ok(n) {
+                    return bad(format!("{} gives {:?} but the model holds {n} entries", cfg.label(l), r));
+                }
+            }
+            L_ISEMPTY => {
+                let r = guard(|| h.is_empty());
+                if r != Out::Ok(n == 0) {
+                    return bad(format!("{} gives {:?} but the model holds {n} entries", cfg.label(l), r));
+                }
+            }
+            L_FLUSH | L_SYNC_ALL | L_SYNC_DATA | L_FILL => {
+                let r = match l.kind {
+                    L_FLUSH => guard(|| h.flush()),
+                    L_SYNC_ALL => guard(|| h.sync_all()),
+                    L_SYNC_DATA => guard(|| h.sync_data()),
+                    _ => guard(|| h.read_fill_buffer()),
+                };
+                if let Some(f) = r.failed() {
+                    return bad(format!("{} {f}", cfg.label(l)));
+                }
+            }
+            L_KEEP_ITER => {
+                match guard_plain(|| h.partial_iter(1)) {
+                    Out::Ok(it) => self.kept.push(it),
+                    o => return bad(format!("{} {}", cfg.label(l), o.failed().unwrap_or_default())),
+                }
+            }
+            _ => {}
+        }
+        None
+    }
+
+    /// every key of map `mi` through handle kind `h` (and len, optionally the iteration multiset)
+    pub fn observe_map(&mut self, cfg: &BCfg, mi: usize, h: u8, with_iter: bool) -> Option<String> {
+        let model = self.models[mi].clone();
+        let keys = cfg.maps[mi].keys.clone();
+        let name = cfg.maps[mi].name.clone();
+        let hd = match self.handle(cfg, mi, h) {
+            Ok(x) => x,
+            Err(e) => return Some(e),
+        };
+        for k in &keys {
+            let exp = model.get(k).cloned();
+            let r = guard(|| hd.get(k));
+            if r != Out::Ok(exp.clone()) {
+                return Some(format!("map {name} via {}: get({}) gives {} but the model says {}", HANDLE_NAMES[h as usize % 5], show(k), fmt_out(&r), fmt_opt(&exp)));
+            }
+        }
+        let r = guard(|| hd.len());
+        if r != Out::Ok(model.len() as u64) {
+            return Some(format!("map {name} via {}: len() gives {:?} but the model holds {}", HANDLE_NAMES[h as usize % 5], r, model.len()));
+        }
+        if with_iter {
+            match guard_plain(|| hd.items()) {
+                Out::Ok(mut items) => {
+                    items.sort();
+                    let exp: Vec<(Vec<u8>, Vec<u8>)> = model.into_iter().collect();
+                    if items != exp {
+                        return Some(format!("map {name}: iteration yields {} items that differ from the model's {} entries", items.len(), exp.len()));
+                    }
+                }
+                o => return Some(format!("map {name}: iteration {}", o.failed().unwrap_or_default())),
+            }
+        }
+        None
+    }
+
+    pub fn observe_all(&mut self, cfg: &BCfg) -> Option<String> {
+        for mi in 0..cfg.maps.len() {
+            for h in 0..5u8 {
+                if self.maps[mi].h[h as usize].is_some() {
+                    if let Some(e) = self.observe_map(cfg, mi, h, false) {
+                        return Some(e);
+                    }
+                }
+            }
+        }
+        None
+    }
+}
+
+pub fn fmt_opt(v: &Option<Vec<u8>>) -> String {
+    v.as_ref().map(|x| show(x)).unwrap_or("None".into())
+}
+pub fn fmt_out(r: &Out<Option<Vec<u8>>>) -> String {
+    match r {
+        Out::Ok(v) => fmt_opt(v),
+        o => o.failed().unwrap_or_default(),
+    }
+}
+
+/// decode every map's files in `dir` and compare with the models
+pub fn check_files(cfg: &BCfg, dir: &Path, models: &[BTreeMap<Vec<u8>, Vec<u8>>], opened: &[bool]) -> Option<String> {
+    for (mi, m) in cfg.maps.iter().enumerate() {
+        if !opened[mi] {
+            continue;
+        }
+        let img = match Image::read(dir, &m.name) {
+            Ok(i) => i,
+            Err(e) => return Some(format!("files of map {} unreadable: {e}", m.name)),
+        };
+        let d = decoder::decode(&img.htx, &img.key, &img.val);
+        if let Some((c, msg)) = d.errors.first() {
+            return Some(format!("files of map {} do not decode (clause {}): {msg}", m.name, c.name()));
+        }
+        if d.contents != models[mi] {
+            return Some(format!("files of map {} decode to {} entries that differ from the model's {}", m.name, d.contents.len(), models[mi].len()));
+        }
+        if d.sig2[0] != m.kt.signature() {
+            return Some(format!("files of map {} carry type signature {:?}", m.name, d.sig2[0]));
+        }
+    }
+    None
+}
+
+/// open a copy of the directory with fresh handles and compare every map with its model
+pub fn check_reopen(cfg: &BCfg, dir: &Path, models: &[BTreeMap<Vec<u8>, Vec<u8>>], opened: &[bool], p: Option<&Params>) -> Option<String> {
+    let dirb = dir.to_path_buf();
+    let db = match guard(move || abyssiniandb::open_file(&dirb)) {
+        Out::Ok(db) => db,
+        o => return Some(format!("open_file {}", o.failed().unwrap_or_default())),
+    };
+    for (mi, m) in cfg.maps.iter().enumerate() {
+        if !opened[mi] {
+            continue;
+        }
+        let pp = p.copied().unwrap_or(m.params);
+        let dbc = db.clone();
+        let name = m.name.clone();
+        let kt = m.kt;
+        let mut h = match guard(move || acquire(&dbc, kt, &name, Some(&pp))) {
+            Out::Ok(h) => h,
+            o => return Some(format!("opening map {} {}", m.name, o.failed().unwrap_or_default())),
+        };
+        for k in &m.keys {
+            let exp = models[mi].get(k).cloned();
+            let r = guard(|| h.get(k));
+            if r != Out::Ok(exp.clone()) {
+                return Some(format!("map {}: get({}) gives {} but the model says {}", m.name, show(k), fmt_out(&r), fmt_opt(&exp)));
+            }
+        }
+        let r = guard(|| h.len());
+        if r != Out::Ok(models[mi].len() as u64) {
+            return Some(format!("map {}: len() gives {:?} but the model holds {}", m.name, r, models[mi].len()));
+        }
+        match guard_plain(|| h.items()) {
+            Out::Ok(mut items) => {
+                items.sort();
+                let exp: Vec<(Vec<u8>, Vec<u8>)> = models[mi].clone().into_iter().collect();
+                if items != exp {
+                    return Some(format!("map {}: iteration differs from the model", m.name));
+                }
+            }
+            o => return Some(format!("map {}: iteration {}", m.name, o.failed().unwrap_or_default())),
+        }
+        let _ = guard_plain(move || drop(h));
+    }
+    let _ = guard_plain(move || drop(db));
+    None
+}
+
+pub fn copy_dir(from: &Path, to: &Path) -> io::Result<()> {
+    clear_dir(to);
+    for e in std::fs::read_dir(from)? {
+        let e = e?;
+        if e.path().is_file() {
+            std::fs::copy(e.path(), to.join(e.file_name()))?;
+        }
+    }
+    Ok(())
+}
+
+// ---------------------------------------------------------------------------------------------
+// worker: run all completions of a prefix
+
+pub struct BWorker {
+    pub cfg: BCfg,
+    pub scratch: Scratch,
+}
+
+#[derive(Default)]
+pub struct BOutcome {
+    pub sequences: u64,
+    pub calls: u64,
+    pub failure: Option<(Vec<u8>, usize, String, String)>, // sequence (letter indices), position, key, message
+    pub counters: BTreeMap<String, i64>,
+    pub images: Vec<Vec<u8>>, // packed images per map of the last sequence (F_RETURN_IMAGES)
+}
+
+impl BOutcome {
+    pub fn enc(&self) -> Vec<u8> {
+        let mut b = Buf::new();
+        b.u64(self.sequences).u64(self.calls);
+        match &self.failure {
+            Some((s, pos, k, m)) => {
+                b.u8(1).bytes(s).u32(*pos as u32).str(k).str(m);
+            }
+            None => {
+                b.u8(0);
+            }
+        }
+        b.u32(self.counters.len() as u32);
+        for (k, v) in &self.counters {
+            b.str(k).u64(*v as u64);
+        }
+        b.u32(self.images.len() as u32);
+        for i in &self.images {
+            b.bytes(i);
+        }
+        b.0
+    }
+    pub fn dec(bytes: &[u8]) -> BOutcome {
+        let mut r = Rd::new(bytes);
+        let mut o = BOutcome { sequences: r.u64(), calls: r.u64(), ..Default::default() };
+        if r.u8() == 1 {
+            let s = r.vec();
+            let pos = r.u32() as usize;
+            let k = r.string();
+            let m = r.string();
+            o.failure = Some((s, pos, k, m));
+        }
+        let nc = r.u32();
+        for _ in 0..nc {
+            let k = r.string();
+            let v = r.u64() as i64;
+            o.counters.insert(k, v);
+        }
+        let ni = r.u32();
+        for _ in 0..ni {
+            o.images.push(r.vec());
+        }
+        o
+    }
+}
+
+fn key_of(msg: &str) -> String {
+    // stable key from a message: the call name and the kind of failure
+    let kind = if msg.contains("panicked") {
+        "panic"
+    } else if msg.contains("returned Err") {
+        "err"
+    } else {
+        "wrong"
+    };
+    let call = msg.split(|c: char| c == '(' || c == ' ').next().unwrap_or("");
+    format!("{call}:{kind}")
+}
+
+impl BWorker {
+    pub fn new(cfg: BCfg) -> BWorker {
+        BWorker { cfg, scratch: Scratch::new("b") }
+    }
+
+    /// run one complete sequence; `hook` is called after every letter (ok flag) for property specific checks
+    pub fn run_sequence(&mut self, seq: &[u8], out: &mut BOutcome, hook: Option<Hook>) -> Option<(usize, String)> {
+        let cfg = self.cfg.clone();
+        let dir = self.scratch.fresh("d");
+        let mut st = BState::new(&cfg, &dir);
+        let mut hook = hook;
+        let mut fail: Option<(usize, String)> = None;
+        for (pos, li) in seq.iter().enumerate() {
+            let l = cfg.letters[*li as usize];
+            out.calls += 1;
+            let r = st.exec(&cfg, &l);
+            if let Some(h) = hook.as_mut() {
+                if let Some(e) = h(&cfg, &mut st, pos, &l, r.is_none()) {
+                    fail = Some((pos, e));
+                    break;
+                }
+            }
+            if let Some(e) = r {
+                fail = Some((pos, e));
+                break;
+            }
+            if cfg.flags & F_SPLICE_RO != 0 && BCfg::is_update(&l) {
+                let mi = l.map as usize % cfg.maps.len();
+                let _ = st.observe_map(&cfg, mi, l.handle, true);
+            }
+            if cfg.flags & F_OBSERVE_ALL != 0 {
+                if let Some(e) = st.observe_all(&cfg) {
+                    fail = Some((pos, format!("after {}: {e}", cfg.label(&l))));
+                    break;
+                }
+            }
+        }
+        let opened = st.opened_once.clone();
+        let models = st.models.clone();
+        if let Some(e) = st.drop_all() {
+            if fail.is_none() {
+                fail = Some((seq.len(), e));
+            }
+        }
+        drop(st);
+        if fail.is_none() && cfg.flags & F_DECODE_END != 0 {
+            if let Some(e) = check_files(&cfg, &dir, &models, &opened) {
+                fail = Some((seq.len(), format!("after the sequence and dropping every handle: {e}")));
+            }
+        }
+        if fail.is_none() && cfg.flags & F_REOPEN_END != 0 {
+            for (pi, p) in cfg.reopen.iter().enumerate() {
+                if let Some(e) = check_reopen(&cfg, &dir, &models, &opened, Some(p)) {
+                    fail = Some((seq.len(), format!("after the sequence, re-opened with parameter set #{pi} ({}): {e}", p.label())));
+                    break;
+                }
+            }
+        }
+        if cfg.flags & F_RETURN_IMAGES != 0 {
+            out.images.clear();
+            for (mi, m) in cfg.maps.iter().enumerate() {
+                if opened[mi] {
+                    out.images.push(Image::read(&dir, &m.name).map(|i| i.pack()).unwrap_or_default());
+                } else {
+                    out.images.push(Vec::new());
+                }
+            }
+        }
+        fail
+    }
+
+    /// job payload: prefix (letter indices), first completion index, number of completions (0 = all)
+    pub fn run(&mut self, payload: &[u8], io: &mut WorkerIo) -> Vec<u8> {
+        let mut r = Rd::new(payload);
+        let prefix = r.vec();
+        let only = r.u64(); // u64::MAX = all completions, else just this one
+        let cfg = self.cfg.clone();
+        let mut out = BOutcome::default();
+        let free = cfg.depth as usize - prefix.len();
+        let a = cfg.letters.len() as u64;
+        let total = a.pow(free as u32);
+        let mut seq = prefix.clone();
+        seq.resize(cfg.depth as usize, 0);
+        let range = if only == u64::MAX { 0..total } else { only..only + 1 };
+        for idx in range {
+            let mut x = idx;
+            for p in (prefix.len()..cfg.depth as usize).rev() {
+                seq[p] = (x % a) as u8;
+                x /= a;
+            }
+            io.progress(idx);
+            out.sequences += 1;
+            let s = seq.clone();
+            if let Some((pos, msg)) = self.run_sequence(&s, &mut out, None) {
+                out.failure = Some((s, pos, key_of(&msg), msg));
+                break;
+            }
+        }
+        out.enc()
+    }
+}
+
+pub fn make_run_job(prefix: &[u8], only: u64) -> Vec<u8> {
+    let mut b = Buf::new();
+    b.u8(JOB_B_RUN).bytes(prefix).u64(only);
+    b.0
+}
+
+pub fn seq_story(cfg: &BCfg, seq: &[u8], pos: usize) -> Vec<String> {
+    let mut v = Vec::new();
+    for m in &cfg.maps {
+        v.push(format!("map {} ({}): {}", m.name, m.kt.name(), m.params.label()));
+    }
+    for (i, li) in seq.iter().enumerate() {
+        if i > pos {
+            break;
+        }
+        v.push(format!("call {}: {}", i + 1, cfg.label(&cfg.letters[*li as usize])));
+    }
+    v
+}
+
+pub struct BStats {
+    pub sequences: u64,
+    pub calls: u64,
+    pub complete: bool,
+}
+
+/// explore every sequence of length cfg.depth over cfg.letters (prefix closed: every call of every
+/// shorter sequence is checked as a prefix of a longer one)
+pub fn explore(cfg: &BCfg, pool: &mut Pool, run: &mut crate::report::Run, max_secs: f64) -> BStats {
+    pool.reinit(vec![{
+        let mut b = Buf::new();
+        b.u8(JOB_B_CONFIG).bytes(&cfg.enc());
+        b.0
+    }]);
+    let a = cfg.letters.len();
+    let split = if cfg.depth >= 3 { 2 } else { 1 }.min(cfg.depth as usize);
+    let mut prefixes: Vec<Vec<u8>> = vec![vec![]];
+    for _ in 0..split {
+        let mut next = Vec::new();
+        for p in &prefixes {
+            for l in 0..a {
+                let mut q = p.clone();
+                q.push(l as u8);
+                next.push(q);
+            }
+        }
+        prefixes = next;
+    }
+    let t0 = run.elapsed();
+    let mut st = BStats { sequences: 0, calls: 0, complete: true };
+    for chunk in prefixes.chunks(pool.size() * 4) {
+        if run.elapsed() - t0 > max_secs {
+            st.complete = false;
+            break;
+        }
+        let jobs: Vec<Vec<u8>> = chunk.iter().map(|p| make_run_job(p, u64::MAX)).collect();
+        let results = pool.map(&jobs, |i| i);
+        for (i, res) in results.into_iter().enumerate() {
+            match res {
+                JobResult::Done(b) => {
+                    let o = BOutcome::dec(&b);
+                    st.sequences += o.sequences;
+                    st.calls += o.calls;
+                    for (k, v) in &o.counters {
+                        run.add(k, *v);
+                    }
+                    if let Some((seq, pos, key, msg)) = o.failure {
+                        let mut case = Buf::new();
+                        case.bytes(&seq);
+                        run.violation(Violation { prop: cfg.prop.clone(), key, message: msg.clone(), replay: Replay { engine: "B".into(), config: cfg.enc(), case: case.0, story: { let mut s = seq_story(cfg, &seq, pos); s.push(format!("observed: {msg}")); s } } });
+                    }
+                }
+                JobResult::Crashed { progress, how } => {
+                    let idx = progress.unwrap_or(0);
+                    let kind = if how.contains("hang") { "hang" } else { "abort" };
+                    let free = cfg.depth as usize - chunk[i].len();
+                    let mut seq = chunk[i].clone();
+                    seq.resize(cfg.depth as usize, 0);
+                    let mut x = idx;
+                    for p in (chunk[i].len()..cfg.depth as usize).rev() {
+                        seq[p] = (x % a as u64) as u8;
+                        x /= a as u64;
+                    }
+                    let _ = free;
+                    let key = format!("{kind}:sequence");
+                    if !run.violations.iter().any(|v| v.key == key) {
+                        match pool.run_isolated(&make_run_job(&chunk[i], idx)) {
+                            JobResult::Crashed { how: how2, .. } => {
+                                let msg = format!("the sequence does not return normally: {how}; confirmed alone in a fresh process: {how2}");
+                                let mut case = Buf::new();
+                                case.bytes(&seq);
+                                run.violation(Violation { prop: cfg.prop.clone(), key, message: msg.clone(), replay: Replay { engine: "B".into(), config: cfg.enc(), case: case.0, story: { let mut s = seq_story(cfg, &seq, seq.len()); s.push(format!("observed: {msg}")); s } } });
+                            }
+                            JobResult::Done(_) => crate::report::machinery_failure(&format!("a worker crash did not reproduce in isolation ({how}); no verdict")),
+                        }
+                    }
+                    st.complete = false;
+                }
+            }
+        }
+        if !run.violations.is_empty() {
+            st.complete = false;
+            break;
+        }
+    }
+    if !st.complete {
+        run.exhaustive = false;
+    }
+    st
+}
+
+pub fn replay(config: &[u8], case: &[u8]) -> i32 {
+    let cfg = BCfg::dec(config);
+    let mut r = Rd::new(case);
+    let seq = r.vec();
+    println!("replay engine B: property {}", cfg.prop);
+    for l in seq_story(&cfg, &seq, seq.len()) {
+        println!("  {l}");
+    }
+    let mut w = BWorker::new(cfg);
+    let mut out = BOutcome::default();
+    match w.run_sequence(&seq, &mut out, None) {
+        Some((pos, msg)) => {
+            println!("REPLAY VIOLATION at call {}: {msg}", pos + 1);
+            1
+        }
+        None => {
+            println!("REPLAY: no violation reproduced");
+            0
+        }
+    }
+}
+
+// ---------------------------------------------------------------------------------------------
+// worker dispatch for the engine B family
+
+thread_local! {
+    static BW: std::cell::RefCell<Option<BWorker>> = std::cell::RefCell::new(None);
+}
+
+pub fn with_bworker<R>(f: impl FnOnce(&mut BWorker) -> R) -> R {
+    BW.with(|w| f(w.borrow_mut().as_mut().expect("engine B not configured")))
+}
+
+pub fn worker_job(kind: u8, payload: &[u8], io: &mut WorkerIo) -> Vec<u8> {
+    match kind {
+        JOB_B_CONFIG => {
+            let mut r = Rd::new(payload);
+            let cfg = BCfg::dec(r.bytes());
+            BW.with(|w| *w.borrow_mut() = Some(BWorker::new(cfg)));
+            vec![0]
+        }
+        JOB_B_RUN => BW.with(|w| w.borrow_mut().as_mut().expect("engine B not configured").run(payload, io)),
+        30..=39 => crate::engine_c::worker_job(kind, payload, io),
+        _ => crate::props_d::worker_job(kind, payload, io),
+    }
+}
+
+// ---------------------------------------------------------------------------------------------
+// engine B parts of C01 / C02 / C18
+
+fn note_b(ctx: &mut Ctx, label: &str, cfg: &BCfg, st: &BStats, t: f64) {
+    ctx.transitions += st.calls;
+    ctx.states += st.sequences;
+    if !st.complete {
+        ctx.all_closed = false;
+    }
+    eprintln!("[{}] engine B {label}: sequences={} calls={} complete={} {:.1}s", cfg.prop, st.sequences, st.calls, st.complete, t);
+    ctx.runs.push(J::obj(vec![
+        ("label", J::s(&format!("engine B: {label}"))),
+        ("letters", J::Int(cfg.letters.len() as i64)),
+        ("depth", J::Int(cfg.depth as i64)),
+        ("sequences", J::Int(st.sequences as i64)),
+        ("calls", J::Int(st.calls as i64)),
+        ("all_sequences_of_that_depth_run", J::Bool(st.complete)),
+        ("wall_s", J::Num(t)),
+    ]));
+    ctx.run.sample(J::obj(vec![("engine_B_letters", J::Arr(cfg.letters.iter().take(12).map(|l| J::s(&cfg.label(l))).collect()))]));
+}
+
+pub fn run_b(ctx: &mut Ctx, label: &str, cfg: &BCfg, max_secs: f64) -> BStats {
+    let t0 = ctx.run.elapsed();
+    let st = explore(cfg, &mut ctx.pool, &mut ctx.run, max_secs);
+    let t = ctx.run.elapsed() - t0;
+    note_b(ctx, label, cfg, &st, t);
+    st
+}
+
+pub fn std_map(kt: KtId, n_buckets: u64, nkeys: usize, key_len: usize, seed: u64, name: &str) -> BMap {
+    let keys = crate::alphabet::keys_in_bucket(kt, n_buckets, 3 % n_buckets, nkeys, key_len, seed, &[]);
+    BMap { name: name.to_string(), kt, params: Params::buckets(n_buckets), keys }
+}
+
+pub fn letters_updates_reads(map: u8, nkeys: u8, nvals: u8, handles: &[u8], reads: bool) -> Vec<Letter> {
+    let mut v = Vec::new();
+    for h in handles {
+        for k in 0..nkeys {
+            for j in 0..nvals {
+                v.push(Letter { kind: L_PUT, map, handle: *h, key: k, val: j });
+            }
+            v.push(Letter { kind: L_DEL, map, handle: *h, key: k, val: 0 });
+            if reads {
+                v.push(Letter { kind: L_GET, map, handle: *h, key: k, val: 0 });
+            }
+        }
+    }
+    if reads {
+        v.push(Letter { kind: L_LEN, map, handle: handles[0], key: 0, val: 0 });
+        v.push(Letter { kind: L_HAS, map, handle: handles[0], key: 0, val: 0 });
+    }
+    v
+}
+
+pub fn c01_live(ctx: &mut Ctx) {
+    if !ctx.run.violations.is_empty() {
+        return;
+    }
+    let seed = ctx.seed;
+    let thorough = ctx.thorough();
+    // small values: 3 colliding keys x 3 sizes + reads, default handle and a clone
+    let cfg = BCfg {
+        prop: "C01".into(),
+        maps: vec![std_map(KtId::Bytes, 8, 3, 11, seed, "m")],
+        val_lens: vec![0, 15, 40],
+        letters: letters_updates_reads(0, 3, 3, &[H_FIRST], true),
+        depth: if thorough { 5 } else { 4 },
+        flags: F_DECODE_END,
+        seed,
+        reopen: vec![],
+        other_params: Params::defaults(),
+    };
+    run_b(ctx, "3 colliding keys x {0,15,40} + get/len/includes_key, no re-open", &cfg, if thorough { 240.0 } else { 14.0 });
+    // multi kilobyte and multi chunk values, so that buffer eviction happens inside a history
+    let cfg2 = BCfg {
+        prop: "C01".into(),
+        maps: vec![std_map(KtId::Bytes, 8, 2, 7, seed, "m")],
+        val_lens: if thorough { vec![5000, 70_000, 300_000] } else { vec![5000, 70_000] },
+        letters: letters_updates_reads(0, 2, if thorough { 3 } else { 2 }, &[H_FIRST, H_CLONE], true),
+        depth: 3,
+        flags: F_DECODE_END,
+        seed,
+        reopen: vec![],
+        other_params: Params::defaults(),
+    };
+    run_b(ctx, "2 keys x multi-kilobyte values through the handle and its clone", &cfg2, if thorough { 240.0 } else { 12.0 });
+    if thorough {
+        let cfg3 = BCfg {
+            prop: "C01".into(),
+            maps: vec![std_map(KtId::Str, 64, 2, 60_000, seed, "m")],
+            val_lens: vec![1, 16 * 1024 * 1024],
+            letters: letters_updates_reads(0, 2, 2, &[H_FIRST], true),
+            depth: 2,
+            flags: F_DECODE_END,
+            seed,
+            reopen: vec![],
+            other_params: Params::defaults(),
+        };
+        run_b(ctx, "60000-byte keys and a 16 MiB value", &cfg3, 200.0);
+    }
+}
+
+pub fn c02_live(ctx: &mut Ctx) {
+    if !ctx.run.violations.is_empty() {
+        return;
+    }
+    let seed = ctx.seed;
+    let thorough = ctx.thorough();
+    let mut letters = letters_updates_reads(0, 2, 2, &[H_FIRST], false);
+    for p in 0..3u8 {
+        letters.push(Letter { kind: L_REOPEN, map: 0, handle: 0, key: p, val: 0 });
+    }
+    letters.push(Letter { kind: L_DROP_MAPS, map: 0, handle: 0, key: 0, val: 0 });
+    letters.push(Letter { kind: L_DROP_DB, map: 0, handle: 0, key: 0, val: 0 });
+    letters.push(Letter { kind: L_KEEP_ITER, map: 0, handle: 0, key: 0, val: 0 });
+    letters.push(Letter { kind: L_PUT, map: 0, handle: H_CLONE, key: 0, val: 1 });
+    let cfg = BCfg {
+        prop: "C02".into(),
+        maps: vec![std_map(KtId::Bytes, 8, 2, 11, seed, "m")],
+        val_lens: vec![3, 300],
+        letters,
+        depth: if thorough { 5 } else { 4 },
+        flags: F_DECODE_END | F_REOPEN_END,
+        seed,
+        reopen: crate::alphabet::reopen_params(Params::buckets(8))[1..].to_vec(),
+        other_params: Params::defaults(),
+    };
+    run_b(ctx, "updates interleaved with close/re-open under 3 parameter sets, handle-graph letters (drop map / drop db / live iterator / clone)", &cfg, if thorough { 300.0 } else { 20.0 });
+}
+
+pub fn c18_live(ctx: &mut Ctx) {
+    if !ctx.run.violations.is_empty() {
+        return;
+    }
+    crate::engine_c::c18_whole_histories(ctx);
+}
